@@ -12,6 +12,10 @@
 //!                       route_deltas + GossipState::with_router/queue_deltas/drain_outbound
 //!   router_from_config  the same through GossipRouter::from_config with the sequential-id
 //!                       convention (ids 1..=n, peers = the other nodes' addresses in id order)
+//!   gossip_manager_loop the production sender loops GossipManager::start_gossip_loop and
+//!                       start_gossip_loop_with_actor, which address targeted messages through a
+//!                       peer map of their own (a local of the loop): every peer is a loopback
+//!                       TCP listener, the frames each one receives are compared with the oracle
 
 use proptest::prelude::*;
 use redis_sim::redis::SDS;
@@ -1127,6 +1131,203 @@ fn check_from_config_case(c: &FromConfigCase, ctx: &mut CaseCtx<'_>) -> Result<(
 }
 
 // ---------------------------------------------------------------------------------------
+// (4) the production gossip loops (GossipManager) against loopback listeners
+// ---------------------------------------------------------------------------------------
+
+#[derive(Clone, Debug, Serialize, Deserialize)]
+struct ManagerCase {
+    /// cluster of ids 1..=n
+    n: u64,
+    sender: u64,
+    vnodes: u32,
+    rf: usize,
+    batch: Vec<u16>,
+    key_space: u16,
+    /// false: start_gossip_loop (Arc<RwLock<GossipState>>), true: start_gossip_loop_with_actor
+    actor: bool,
+}
+
+const KF02: &str = "KF-C19-02";
+
+enum LoopOutcome {
+    /// what each listener (peer id) received before the closing heartbeat
+    Deliveries(Deliveries),
+    /// sockets unavailable / timed out: nothing can be concluded
+    Inconclusive(String),
+}
+
+/// Runs one production gossip loop for two ticks: tick 1 gossips `batch`, tick 2 a heartbeat,
+/// which both loops broadcast to every configured peer address (not through the peer map under
+/// test) strictly after all messages of tick 1 were written. Every listener therefore sees a
+/// heartbeat frame after everything that was ever addressed to it: termination is structural.
+fn run_manager_loop(c: &ManagerCase, batch: &[(String, u32)]) -> Result<LoopOutcome, String> {
+    use redis_sim::production::{GossipActor, GossipManager};
+    use std::sync::atomic::{AtomicUsize, Ordering};
+    use tokio::io::AsyncReadExt;
+    use tokio::net::TcpListener;
+    let (n, sender) = (c.n, c.sender);
+    vcore::block_on(async {
+        // one loopback listener per peer, in id order
+        let mut listeners: Vec<(u64, TcpListener)> = Vec::new();
+        let mut addrs: BTreeMap<u64, String> = BTreeMap::new();
+        for j in (1..=n).filter(|&j| j != sender) {
+            let l = match TcpListener::bind("127.0.0.1:0").await {
+                Ok(l) => l,
+                Err(e) => return Ok(LoopOutcome::Inconclusive(format!("bind: {}", e))),
+            };
+            let a = match l.local_addr() {
+                Ok(a) => a.to_string(),
+                Err(e) => return Ok(LoopOutcome::Inconclusive(format!("local_addr: {}", e))),
+            };
+            addrs.insert(j, a);
+            listeners.push((j, l));
+        }
+        let ids: Vec<u64> = (1..=n).collect();
+        let mut cfg = partitioned_config(sender, addrs.values().cloned().collect(), c.rf, c.vnodes);
+        cfg.gossip_interval_ms = 1;
+        let ring = Arc::new(RwLock::new(HashRing::new(rid(&ids), c.vnodes, c.rf)));
+        // a CORRECT router (full, right peer map): only the loop's own addressing is under test
+        let peers: HashMap<ReplicaId, String> = addrs.iter().map(|(j, a)| (ReplicaId::new(*j), a.clone())).collect();
+        let router = GossipRouter::new(ring.clone(), ReplicaId::new(sender), peers, true);
+        let deltas: Vec<ReplicationDelta> = batch.iter().map(|(k, t)| mk_delta(k, *t, sender)).collect();
+        let calls = Arc::new(AtomicUsize::new(0));
+        let task = if c.actor {
+            let handle = GossipActor::spawn_with_router(cfg.clone(), router);
+            let h2 = handle.clone();
+            let calls = calls.clone();
+            tokio::spawn(GossipManager::start_gossip_loop_with_actor(cfg.clone(), handle, move || {
+                match calls.fetch_add(1, Ordering::SeqCst) {
+                    0 => deltas.clone(),
+                    1 => {
+                        h2.queue_heartbeat();
+                        Vec::new()
+                    }
+                    _ => Vec::new(),
+                }
+            }))
+        } else {
+            let state = Arc::new(parking_lot::RwLock::new(GossipState::with_router(cfg.clone(), router)));
+            let s2 = state.clone();
+            let calls = calls.clone();
+            tokio::spawn(GossipManager::start_gossip_loop(cfg.clone(), state, move || {
+                match calls.fetch_add(1, Ordering::SeqCst) {
+                    0 => deltas.clone(),
+                    1 => {
+                        // the loop calls collect_deltas() before it takes the state lock
+                        s2.write().queue_heartbeat();
+                        Vec::new()
+                    }
+                    _ => Vec::new(),
+                }
+            }))
+        };
+        let read_all = async {
+            let mut got: Deliveries = BTreeMap::new();
+            for (j, l) in listeners.iter() {
+                let (mut sock, _) = l.accept().await.map_err(|e| format!("accept: {}", e))?;
+                loop {
+                    let mut len = [0u8; 4];
+                    sock.read_exact(&mut len).await.map_err(|e| format!("read: {}", e))?;
+                    let mut buf = vec![0u8; u32::from_be_bytes(len) as usize];
+                    sock.read_exact(&mut buf).await.map_err(|e| format!("read: {}", e))?;
+                    let msg = GossipMessage::deserialize(&buf).map_err(|e| format!("peer {} received an undecodable frame: {}", j, e))?;
+                    match msg {
+                        GossipMessage::Heartbeat { .. } => break,
+                        GossipMessage::TargetedDelta {
+                            source_replica,
+                            target_replica,
+                            deltas,
+                            ..
+                        } => {
+                            if target_replica.0 != *j || source_replica.0 != sender {
+                                return Err(format!(
+                                    "VIOLATION: the listener of node {} received a message addressed to node {} from node {} (sender under test: {})",
+                                    j, target_replica.0, source_replica.0, sender
+                                ));
+                            }
+                            let e = got.entry(*j).or_default();
+                            for d in &deltas {
+                                e.push(delta_tag(d)?);
+                            }
+                        }
+                        other => {
+                            return Err(format!("VIOLATION: node {} received an unexpected message in selective mode: {:?}", j, other));
+                        }
+                    }
+                }
+            }
+            for v in got.values_mut() {
+                v.sort();
+            }
+            Ok::<Deliveries, String>(got)
+        };
+        let r = tokio::time::timeout(std::time::Duration::from_secs(20), read_all).await;
+        task.abort();
+        match r {
+            Err(_) => Ok(LoopOutcome::Inconclusive("timed out waiting for the closing heartbeat".into())),
+            Ok(Err(e)) if e.starts_with("VIOLATION: ") => Err(e["VIOLATION: ".len()..].to_string()),
+            Ok(Err(e)) => Ok(LoopOutcome::Inconclusive(e)),
+            Ok(Ok(d)) => Ok(LoopOutcome::Deliveries(d)),
+        }
+    })
+}
+
+fn check_manager_case(c: &ManagerCase, ctx: &mut CaseCtx<'_>) -> Result<(), String> {
+    let n = c.n;
+    if n < 2 || c.sender < 1 || c.sender > n {
+        return Ok(());
+    }
+    let ids: Vec<u64> = (1..=n).collect();
+    let ring = HashRing::new(rid(&ids), c.vnodes, c.rf);
+    let batch = batch_keys(std::slice::from_ref(&c.batch), c.key_space).pop().unwrap_or_default();
+    let mut want = expected_deliveries(&ring, c.sender, &batch);
+    let got = match run_manager_loop(c, &batch)? {
+        LoopOutcome::Deliveries(d) => d,
+        LoopOutcome::Inconclusive(why) => {
+            ctx.abstain();
+            ctx.label(&format!("inconclusive:{}", why.split(':').next().unwrap_or("")));
+            return Ok(());
+        }
+    };
+    ctx.label(if c.actor { "loop:actor" } else { "loop:rwlock" });
+    let what = format!(
+        "GossipManager::{} cluster 1..={} vnodes {} rf {} sender {}",
+        if c.actor { "start_gossip_loop_with_actor" } else { "start_gossip_loop" },
+        n,
+        c.vnodes,
+        c.rf,
+        c.sender
+    );
+    if got != want {
+        // KF-C19-02, and only it: sender r < n, everything addressed to node r+1 is missing
+        // (the loop's own peer map files that peer under the sender's id), nothing else differs
+        let miss = c.sender + 1;
+        if c.sender < n && want.contains_key(&miss) && !got.contains_key(&miss) {
+            let mut w2 = want.clone();
+            w2.remove(&miss);
+            if w2 == got && ctx.tolerate(KF02) {
+                ctx.label("gossip_manager:kf02_tolerated");
+                want = w2;
+            }
+        }
+    }
+    if got != want {
+        return Err(format!(
+            "{}: the frames received by the peers' listeners differ from get_replicas(key) minus sender for a batch of {} deltas (the GossipState's router is correct; the loop addresses targets through its own peer map).\n    expected:{}\n    received:{}",
+            what,
+            batch.len(),
+            show_deliveries(&want),
+            show_deliveries(&got)
+        ));
+    }
+    ctx.add_evaluations(batch.len() as u64);
+    if n >= 3 && c.rf > 0 && (c.rf as u64) < n && !batch.is_empty() {
+        ctx.nontrivial(&(n, c.sender, c.vnodes, c.rf, c.batch.clone(), c.actor));
+    }
+    Ok(())
+}
+
+// ---------------------------------------------------------------------------------------
 
 fn main() {
     let args = vcore::parse_args();
@@ -1156,6 +1357,29 @@ fn main() {
                 key_space: u16::MAX,
             };
             s.strict_eval(|ctx| check_from_config_case(&case, ctx)).err()
+        },
+    );
+
+    // ---- KF-C19-02: 3 nodes, node 1 gossips one key owned by everybody through the production loop
+    s.probe(
+        KF02,
+        json!({"cluster": [1, 2, 3], "sender": 1, "rf": 3, "key": "k0", "api": "GossipManager::start_gossip_loop / start_gossip_loop_with_actor with a GossipState whose router is correct"}),
+        || {
+            for actor in [false, true] {
+                let case = ManagerCase {
+                    n: 3,
+                    sender: 1,
+                    vnodes: 16,
+                    rf: 3,
+                    batch: vec![0],
+                    key_space: u16::MAX,
+                    actor,
+                };
+                if let Err(e) = s.strict_eval(|ctx| check_manager_case(&case, ctx)) {
+                    return Some(e);
+                }
+            }
+            None
         },
     );
 
@@ -1274,6 +1498,37 @@ fn main() {
                 })
         },
         check_from_config_case,
+    );
+
+    s.describe_check(
+        "gossip_manager_loop",
+        "clusters 1..=n (n 2..=6), one sender, both production sender loops, GossipState/GossipActor with a correct selective router, every peer a loopback TCP listener: frames received per peer = get_replicas(key) minus sender, nothing to anybody else; a heartbeat broadcast in the next tick closes every stream (structural termination); socket trouble = abstain",
+    );
+    s.assume("gossip_manager_loop uses loopback TCP listeners (127.0.0.1, ephemeral ports): the loops' peer map is a local variable, the address that receives the bytes is the only observable; if sockets are unavailable the sub-check abstains");
+    s.run_cases(
+        "gossip_manager_loop",
+        s.scale(100, 3_000),
+        || {
+            (
+                2u64..=6,
+                any::<u16>(),
+                prop_oneof![1 => Just(1u32), 2 => 2u32..=20, 2 => 21u32..=200],
+                0usize..=6,
+                proptest::collection::vec(any::<u16>(), 0..16),
+                prop_oneof![1 => Just(4u16), 3 => Just(u16::MAX)],
+                any::<bool>(),
+            )
+                .prop_map(|(n, si, vnodes, rf, batch, key_space, actor)| ManagerCase {
+                    n,
+                    sender: 1 + ((si as u64 * n) >> 16),
+                    vnodes,
+                    rf,
+                    batch,
+                    key_space,
+                    actor,
+                })
+        },
+        check_manager_case,
     );
 
     s.finish();
